@@ -116,6 +116,40 @@ def b_rat(job):
             stats["ops"] += 1; stats["inplace"] = stats.get("inplace", 0) + 1
             if o.get("w") and o.get("m"): stats["both_valid"] = stats.get("both_valid", 0) + 1
             return nid, o
+        def s_ip3(op, d, a, b):
+            nonlocal nid
+            nid += 1
+            o = cv.ask("ip3 %d %s %d %d %d" % (nid, op, d, a, b))
+            if "err" in o:
+                events.append({"e": "err", "i": nid}); return None
+            f, nd, c = value_fields(o)
+            vals[nid] = nd; ids.append(nid); ids.remove(d)
+            ev = dict(f); ev.update({"e": "op", "i": nid, "op": op, "a": a, "b": b, "cert": cert(**c)})
+            events.append(ev)
+            stats["ops"] += 1; stats["ip3"] = stats.get("ip3", 0) + 1
+            return nid
+        # three-argument forms writing into a destination that holds something else (as polynomial merging does): the
+        # destination in each representation state, operands small and big, then an operation through GMP on the result
+        for _ in range(job.get("suite3", 10)):
+            dkind = rng.choice(["W", "M", "M", "WM"])
+            bigv = rng.choice([3000000000, 2**31, 2**32 + 5, -2**31 - 1, 2**40 + 3, 9999999999]) + rng.randint(0, 9)
+            d = s_lit(rng.randint(-9, 9) or 1) if dkind == "W" else s_lit(bigv)
+            if d is None: continue
+            if dkind == "WM":
+                bb = s_lit(rng.randint(1, 5) - bigv)
+                if bb is None: continue
+                d, _o = s_ip("addassign", d, bb)
+                if d is None: continue
+            a = s_lit(rng.choice([rng.randint(-9, 9) or 2, 100000, 2**33 + 1, "7/3", bigv]))
+            b = s_lit(rng.choice([rng.randint(-9, 9) or 3, 7, 2**20, "5/2", 1]))
+            if a is None or b is None: continue
+            op3 = rng.choice(["mul", "mul", "add", "sub", "div"])
+            if op3 == "div" and vals[b][0] == 0: continue
+            r3 = s_ip3(op3, d, a, b)
+            if r3 is None: continue
+            g1 = s_lit(rng.choice([2**33 + rng.randint(1, 9), 9999999999, "1/4294967297"]))
+            if g1 is not None:
+                r4, _o = s_ip(rng.choice(["addassign", "mulassign"]), r3, g1)
         combos = [(st, op, kd) for st in ("W", "M", "WM") for op in ("addassign", "subassign", "mulassign", "divassign", "negate")
                   for kd in ("si", "neg", "sf", "bi", "bf")]
         rng.shuffle(combos)
